@@ -277,6 +277,12 @@
            ! fudge factor of -0.5 for agreement with single sphere case
            asreshape = reshape(cshift(ascatmat, shift = 1), (/ 2, 2 /), &
                 order = (/ 2, 1 /)) * (-0.5)
+           ! SCSMFO's matrix relates (theta, phi) components; the field code
+           ! below works with components parallel and perpendicular to the
+           ! scattering plane, and perpendicular = -phi (see incfield and
+           ! calc_scat_field): the off-diagonal elements change sign
+           asreshape(1, 2) = -asreshape(1, 2)
+           asreshape(2, 1) = -asreshape(2, 1)
 
            ! calculate scattered fields in spherical coordinates
            call calc_scat_field(kr, phi, asreshape, inc_pol, escat_sph)
